@@ -243,3 +243,83 @@ Proof.
   rewrite Z.quot_div_nonneg by lia.
   assert (w * 1 / 10 < q - cur) by (apply Z.div_lt_upper_bound; lia). lia.
 Qed.
+
+Lemma node_reserved_perturb_4 idx d i : node_reserved (perturb 4 idx d i) = node_reserved i.
+Proof. reflexivity. Qed.
+
+(* ---------------------------------------------------------------- perturbation 4: a non-BE pod
+   uses more while the node total stays, so the inferred system part shrinks.  The two parts are
+   truncated to milli-CPU separately, which can cost one milli-CPU. *)
+
+Lemma bump_pod_nonbe d : forall ps k,
+  pods_nonbe (bump_pod k d ps)
+  = pods_nonbe ps + (if match nth_error ps k with Some p => p_hasmetric p && pod_nonbe p | None => false end
+                     then d else 0).
+Proof.
+  induction ps as [|p t IH]; intros k.
+  - destruct k; cbn; lia.
+  - destruct k as [|k]; cbn [bump_pod nth_error].
+    + unfold pods_nonbe. cbn [filter]. unfold pod_nonbe. cbn [p_hasmetric p_inmeta p_lab p_kubebe].
+      destruct (p_hasmetric p && (negb (p_inmeta p) || negb (p_lab p =? Q_BE) && negb (p_kubebe p)));
+        cbn [map p_use]; rewrite ?sumZ_cons; lia.
+    + specialize (IH k). unfold pods_nonbe in *. cbn [filter].
+      destruct (p_hasmetric p && pod_nonbe p); cbn [map]; rewrite ?sumZ_cons; lia.
+Qed.
+
+Lemma pods_nonbe_nonneg ps : Forall (fun p => 0 <= p_use p) ps -> 0 <= pods_nonbe ps.
+Proof.
+  unfold pods_nonbe. induction 1 as [|p t Hp _ IH]; [cbn; lia|].
+  cbn [filter]. destruct (p_hasmetric p && pod_nonbe p); cbn [map]; rewrite ?sumZ_cons; lia.
+Qed.
+
+Lemma budget_slack idx d i : rt_ok i = true -> 0 <= d ->
+  Forall (fun p => 0 <= p_use p) (b_pods i) ->
+  match nth_error (b_pods i) (Z.to_nat idx) with Some p => pod_nonbe p = true | None => True end ->
+  budget (perturb 4 idx d i) <= budget i + 1.
+Proof.
+  intros Hok Hd Hnn Hnb.
+  unfold rt_ok in Hok. apply andb_true_iff in Hok. destruct Hok as [Hr1 Hr2].
+  apply Z.leb_le in Hr1. apply Z.leb_le in Hr2.
+  set (i' := perturb 4 idx d i).
+  assert (Hres : node_reserved i' = node_reserved i) by apply node_reserved_perturb_4.
+  pose proof (pods_nonbe_nonneg _ Hnn) as HA.
+  pose proof (sys_raw_nonneg i) as Hraw. pose proof (sys_raw_nonneg i') as Hraw'.
+  pose proof (node_reserved_nonneg i) as Hresn.
+  destruct (bump_pod_spec d Hd (b_pods i) (Z.to_nat idx)) as [_ Hall].
+  pose proof (bump_pod_nonbe d (b_pods i) (Z.to_nat idx)) as Hnbe.
+  assert (Hb : budget i' = apply_min (b_cap i) (b_min i)
+             (Z.quot (b_cap i * b_thr i) 100 - to_milli (pods_nonbe (bump_pod (Z.to_nat idx) d (b_pods i)))
+              - to_milli (hosts_nonbe (b_hosts i)) - sys_milli i')) by reflexivity.
+  assert (Hraw'eq : sys_raw i' = Z.max (b_node i - pods_all (bump_pod (Z.to_nat idx) d (b_pods i)) - hosts_all (b_hosts i)) 0)
+    by reflexivity.
+  rewrite Hb. unfold budget. rewrite !apply_min_max.
+  assert (Hmain : to_milli (pods_nonbe (b_pods i)) + sys_milli i - 1
+                  <= to_milli (pods_nonbe (bump_pod (Z.to_nat idx) d (b_pods i))) + sys_milli i').
+  { destruct (nth_error (b_pods i) (Z.to_nat idx)) as [p|] eqn:En.
+    - rewrite Hnb in Hnbe. rewrite andb_true_r in Hnbe.
+      destruct (p_hasmetric p).
+      + (* counted non-BE pod: both sums grow by d *)
+        rewrite Hnbe. rewrite Hall in Hraw'eq.
+        set (R := b_node i - pods_all (b_pods i) - hosts_all (b_hosts i)) in *.
+        assert (Hq : sys_raw i = Z.max R 0) by reflexivity.
+        assert (Hq' : sys_raw i' = Z.max (R - d) 0) by (rewrite Hraw'eq; f_equal; lia).
+        destruct (sys_milli_cases i) as [[Ha [Hs Hc]]|[Ha [Hs Hc]]];
+        destruct (sys_milli_cases i') as [[Ha' [Hs' Hc']]|[Ha' [Hs' Hc']]];
+          rewrite Hs, Hs'; rewrite ?Hres in *;
+          rewrite ?to_milli_div in * by lia;
+          rewrite Hq in *; rewrite Hq' in *;
+          clear Hs Hs' Hq Hq' Hraw'eq Hb;
+          generalize dependent (pods_nonbe (b_pods i)); intros A HA;
+          generalize dependent (node_reserved i); intros res; intros;
+          generalize dependent (rt_milli res); intros rt; intros;
+          Z.div_mod_to_equations; lia.
+      + rewrite Hnbe. rewrite Hall in Hraw'eq. rewrite !Z.add_0_r in *.
+        assert (Hse : sys_milli i' = sys_milli i).
+        { unfold sys_milli. rewrite Hres. rewrite Hraw'eq. reflexivity. }
+        rewrite Hse. lia.
+    - rewrite Hnbe. rewrite Hall in Hraw'eq. rewrite !Z.add_0_r in *.
+      assert (Hse : sys_milli i' = sys_milli i).
+      { unfold sys_milli. rewrite Hres. rewrite Hraw'eq. reflexivity. }
+      rewrite Hse. lia. }
+  destruct (b_min i); lia.
+Qed.
